@@ -729,8 +729,8 @@ def fails_spec(ctx, exe, mexe, c, method, k, conn=False):
     for (q, ok, dists), (_, row) in zip(spec_rows(ctx, mexe, T, k, srows), srows):
         if not ok:
             want = sorted(T[int(q)][j] for j in range(c["N"]) if j != int(q))[:k]
-            return ("%s, k=%d, query %s: returned %s (distances %s) but the k smallest distances to the other "
-                    "samples are %s" % (MNAME[method], k, q, row, [T[int(q)][j] if 0 <= j < c["N"] else None
+            return ("%s%s, k=%d, query %s: returned %s (distances %s) but the k smallest distances to the other "
+                    "samples are %s" % (MNAME[method], cc, k, q, row, [T[int(q)][j] if 0 <= j < c["N"] else None
                                                                      for j in row], want))
     return None
 
@@ -1525,12 +1525,19 @@ def run(ctx):
     mexe = ctx.extract()
     stats, hist = {}, {}
     cases = []
+    wcorpus = []
     import os
     for name, cj in ([] if os.environ.get("C02_NO_CORPUS") else ctx.corpus()):   # developer switch: generators only
         try:
             c = corpus_case(cj)
         except (KeyError, TypeError) as ex:
             ctx.note("corpus file %s unusable: %s" % (name, ex))
+            continue
+        if cj.get("wrap"):
+            # a witness of the dispatcher stream: a callback that is NOT a metric, judged by evaluate_wrap only
+            c.update(nonmetric=True, structural=False)
+            if c["ks"]:
+                wcorpus.append(c)
             continue
         if c["ks"]:
             cases.append(c)
@@ -1603,7 +1610,7 @@ def run(ctx):
         if c["gen"] not in FAST and c["N"] <= 150 and c["ks"] and c.get("structural", True):
             c["wrap_k"] = rng.choice(c["ks"])
     # the dispatcher stream: callbacks that are NOT metrics (see gen_nonmetric), every method, 5-6 k each
-    wcases = [gen_nonmetric(rng) for _ in range(260 if quick else 1500)]
+    wcases = wcorpus + [gen_nonmetric(rng) for _ in range(260 if quick else 1500)]
     for nbig in ([120] if quick else [120, 200, 200]):
         # the shape of the demo of seeded change C02_4: 10 features, common offset 7e6, spread 1, k = 5
         X = [[7e6 + rng.random() for _ in range(10)] for _ in range(nbig)]
